@@ -27,6 +27,11 @@ impl Generator {
         let use_frame = self.state.version >= Version::V4 && source.gen_bool();
 
         self.emit_proto(source);
+        #[cfg(feature = "verif-hooks")]
+        crate::verif::emit(|| crate::verif::Event::Header {
+            use_frame,
+            snap: crate::verif::snap(self),
+        });
 
         // reserve space for FRAME if we're going to use it
         let frame_position = if use_frame {
@@ -46,19 +51,50 @@ impl Generator {
             self.min_opcodes
         };
 
+        #[cfg(feature = "verif-hooks")]
+        crate::verif::emit(|| crate::verif::Event::Target {
+            target: target_opcodes,
+        });
+
         // generation phase - allow stack to grow and build complex structures
         for _ in 0..target_opcodes {
             let valid_ops = self.get_valid_opcodes();
+            #[cfg(feature = "verif-hooks")]
+            {
+                crate::verif::emit(|| crate::verif::Event::StepBegin {
+                    valid: valid_ops.iter().map(|o| o.as_u8()).collect(),
+                    snap: crate::verif::snap(self),
+                });
+                crate::verif::emit_graph(self);
+            }
             if valid_ops.is_empty() {
                 // no valid moves available, move to cleanup
                 break;
             }
             let chosen = self.weighted_choice(valid_ops, source);
+            #[cfg(feature = "verif-hooks")]
+            crate::verif::emit(|| crate::verif::Event::Chosen {
+                opcode: chosen.as_u8(),
+            });
             self.emit_and_process(chosen, source)?;
+        }
+
+        #[cfg(feature = "verif-hooks")]
+        {
+            crate::verif::emit(|| crate::verif::Event::LoopEnd {
+                valid: self.get_valid_opcodes().iter().map(|o| o.as_u8()).collect(),
+                snap: crate::verif::snap(self),
+            });
+            crate::verif::emit_graph(self);
         }
 
         // cleanup phase - reduce stack to exactly 1 item for STOP
         self.cleanup_for_stop();
+
+        #[cfg(feature = "verif-hooks")]
+        crate::verif::emit(|| crate::verif::Event::CleanupDone {
+            snap: crate::verif::snap(self),
+        });
 
         self.emit_opcode(OpcodeKind::Stop);
 
@@ -77,6 +113,14 @@ impl Generator {
 
             self.output[pos] = OpcodeKind::Frame.as_u8();
             self.output[pos + 1..pos + 9].copy_from_slice(&(frame_size as u64).to_le_bytes());
+        }
+
+        #[cfg(feature = "verif-hooks")]
+        {
+            crate::verif::emit(|| crate::verif::Event::Done {
+                snap: crate::verif::snap(self),
+            });
+            crate::verif::emit_graph(self);
         }
 
         Ok(self.output.clone())
